@@ -603,6 +603,20 @@ theorem conc_notifications_exactly_once (ops : List Op) (calls : List Conc.Pc) (
   rw [this, List.append_nil] at hp
   exact hp
 
+/-- **Every effective membership change is reported** — for every region of every thread in every
+state: if the region changes whether `x` is a member of group `k`, then it appends exactly one change
+record, for that group, containing `x`, of the right kind (join iff `x` is a member afterwards), with the
+recipients read in that very region (`recipients` of the state the region ran in). With
+`conc_notifications_exactly_once` (one event per recorded recipient per record, as multisets, for all
+schedules): each join, each leave and each automatic leave of a raced exit — one `Leave` per group the
+exiting actor was still in when `leave_all` reached it; a group a racing `leave_scoped` took it out of
+first is reported by that call instead — reaches exactly the monitors of the instant of the change. -/
+theorem conc_every_change_recorded (g : Conc.G) (t : Conc.Tid) (k : Key) (x : Nat)
+    (hch : ¬ (x ∈ membersOf (Conc.step g t).st k ↔ x ∈ membersOf g.st k)) :
+    ∃ p, (Conc.step g t).changes = g.changes ++ [p] ∧ (p.s, p.g) = k ∧ x ∈ p.actors ∧
+      (p.isJoin = true ↔ x ∈ membersOf (Conc.step g t).st k) ∧ p.to = recipients g.st k :=
+  Conc.change_recorded g t k x hch
+
 /-- non-vacuity: actors 1 and 2 exit at the same time while one thread joins both to a second group and
 another thread starts monitoring; mid-run the forward entry of actor 1 in group (1,0) is stale (its
 reverse index is already drained) and accounted for by the pending key of its own exit; at rest both
@@ -654,3 +668,4 @@ end C11
 #print axioms C11.conc_queries_are_projections
 #print axioms C11.conc_membership_linearizable
 #print axioms C11.conc_notifications_exactly_once
+#print axioms C11.conc_every_change_recorded
